@@ -1,5 +1,7 @@
 import Driver.Proto
 import ZipVerif.Model.Clones
+import ZipVerif.Spec.Crc32
+import ZipVerif.Spec.Pkware
 /- C20 ops: `clones.*`
 
 `clones.run k=<handles> zip=<archive hex> data=<decoded content per entry, comma separated hex>
@@ -9,6 +11,17 @@ import ZipVerif.Model.Clones
   `opens:<number of successful opens>` and the observation of every call, `|`-separated.  The immutable entry table is read off the archive's
   central directory by the small well-formed-archive parser below (driver glue, not part of the model:
   it only has to handle the archives the `clones` stream writes; anything else is `bad-archive`).
+  Script items added in round 3: `h:opendec:<i>:<pw hex>` = `by_index_decrypt`, `h:byname:<name hex>` = `by_name`,
+  `h:bynamedec:<name hex>:<pw hex>` = `by_name_decrypt`.  The model's parameter `Arch.unlock` (verdict of
+  validation + decryption + decoding for (entry, password)) is instantiated by the glue below:
+  * ZipCrypto entries: COMPUTED from `Spec.Pkware.decryptEntry` (APPNOTE 6.1 cipher, check byte = CRC high byte,
+    or time high byte with a data descriptor) over the stored bytes; for a stored entry the decrypted payload IS the
+    content and the end-of-entry verdict is `Spec.Crc32.crc32 content ≠ declared CRC`; for a compressed one the
+    decoded content comes from the table (inflate is not modelled);
+  * WinZip-AES entries: PBKDF2 / AES / HMAC are parameters of the framework (C16), so the verdict is the table
+    `keys=<entry>:<pw hex>:<content hex>,…` the harness computes with ITS OWN AE-x implementation (not the
+    crate's): a listed pair opens with that content, any other password is `wrong`; AE-1 entries check the CRC-32.
+  For plain entries the end-of-entry verdict is computed here: CRC-32 of the given content vs the declared one.
 `clones.threads …` is answered `ok`: the multi-threaded stress run is an observation of the real
   implementation under OS schedules, not a correspondence with the model. -/
 
@@ -20,14 +33,36 @@ namespace Clones
 def u16At (b : Bytes) (o : Nat) : Option Nat := (rd16 (b.drop o)).map (·.1.toNat)
 def u32At (b : Bytes) (o : Nat) : Option Nat := (rd32 (b.drop o)).map (·.1.toNat)
 
-def centralEntries (b : Bytes) (data : List Bytes) : Nat → Nat → Nat → Option (List Entry × Nat)
+/-- Walk extra-field records for the WinZip AES record 0x9901: (vendor version, actual method). -/
+def aesExtra : Nat → Bytes → Option (Nat × Nat)
+  | 0, _ => none
+  | fuel + 1, ex => do
+    let id ← (rd16 ex).map (·.1.toNat)
+    let len ← (rd16 (ex.drop 2)).map (·.1.toNat)
+    let body := (ex.drop 4).take len
+    if body.length != len then none
+    if id == 0x9901 then
+      if len != 7 then none
+      let ver ← (rd16 body).map (·.1.toNat)
+      let m ← (rd16 (body.drop 5)).map (·.1.toNat)
+      some (ver, m)
+    else aesExtra fuel (ex.drop (4 + len))
+
+/-- Per-entry facts the `unlock` glue needs besides the model's `Entry`. -/
+structure Crypt where
+  aes : Option Nat        -- vendor version of an AES entry
+  check : UInt8           -- ZipCrypto check byte
+  deriving Inhabited
+
+def centralEntries (b : Bytes) (data : List Bytes) : Nat → Nat → Nat → Option (List (Entry × Crypt) × Nat)
   | 0, o, _ => some ([], o)
   | fuel + 1, o, idx => do
     let sig ← u32At b o
     if sig != 0x02014b50 then none
     let flags ← u16At b (o + 8)
-    if flags % 2 == 1 then none            -- encrypted entries are outside the model's scope
-    let method ← u16At b (o + 10)
+    let enc := flags % 2 == 1
+    let method0 ← u16At b (o + 10)
+    let time ← u16At b (o + 12)
     let crc ← u32At b (o + 16)
     let csize ← u32At b (o + 20)
     let usize ← u32At b (o + 24)
@@ -38,15 +73,61 @@ def centralEntries (b : Bytes) (data : List Bytes) : Nat → Nat → Nat → Opt
     if csize == 0xffffffff || usize == 0xffffffff || lho == 0xffffffff then none  -- no ZIP64 here
     let name := (b.drop (o + 46)).take nl
     if name.length != nl then none
+    let extra := (b.drop (o + 46 + nl)).take el
+    -- the AES pseudo-method is replaced by the actual method found in the 0x9901 record
+    let ae := if method0 == 99 then aesExtra 64 extra else none
+    let method := match ae with | some (_, m) => m | none => method0
+    let content := (data[idx]?).getD []
+    let crc32 := UInt32.ofNat crc
+    let crcBad : Option IoKind := if Spec.Crc32.crc32 content == crc32 then none else some .other
     let e : Entry :=
       { name := name, headerStart := UInt64.ofNat lho, compSize := UInt64.ofNat csize,
-        size := UInt64.ofNat usize, crc := UInt32.ofNat crc, stored := method == 0,
-        decodable := [0, 8, 12, 93].contains method, content := (data[idx]?).getD [] }
+        size := UInt64.ofNat usize, crc := crc32, stored := method == 0,
+        decodable := [0, 8, 12, 93].contains method, content := content,
+        encrypted := enc, eofErr := if enc then none else crcBad }
+    let c : Crypt :=
+      { aes := ae.map (·.1),
+        check := Spec.Pkware.checkByte ((flags / 8) % 2 == 1) crc32 (UInt16.ofNat time) }
     let (rest, o') ← centralEntries b data fuel (o + 46 + nl + el + cl) (idx + 1)
-    some (e :: rest, o')
+    some ((e, c) :: rest, o')
+
+/-- `keys=` table: (entry, password) ↦ decoded content. -/
+def parseKeys (s : String) : Option (List (Nat × Bytes × Bytes)) :=
+  if s == "-" || s == "" then some [] else
+  (s.splitOn ",").mapM fun item =>
+    match item.splitOn ":" with
+    | [i, p, c] => do some (← i.toNat?, ← parseHex p, ← parseHex c)
+    | _ => none
+
+/-- Instantiation of the model parameter `Arch.unlock` (see the header of this file). -/
+def unlockOf (b : Bytes) (es : List (Entry × Crypt)) (keys : List (Nat × Bytes × Bytes))
+    (i : Nat) (p : Bytes) : Unlock :=
+  match es[i]? with
+  | none => .wrong
+  | some (e, c) =>
+    let tbl := (keys.find? (fun k => k.1 == i && k.2.1 == p)).map (·.2.2)
+    let crcBad (content : Bytes) : Option IoKind :=
+      if Spec.Crc32.crc32 content == e.crc then none else some .other
+    match c.aes with
+    | some ver =>
+      match tbl with
+      | some content => .opens content (if ver == 2 then none else crcBad content)
+      | none => .wrong
+    | none =>
+      match findContent b e.headerStart with
+      | .ok ds =>
+        let stored := (b.drop ds.toNat).take e.compSize.toNat
+        match Spec.Pkware.decryptEntry p c.check stored with
+        | none => .wrong
+        | some d =>
+          if e.stored then .opens d (crcBad d)
+          else match tbl with
+            | some content => .opens content (crcBad content)
+            | none => .fails .invalidArchive   -- decoded form of a foreign stream: not given (generator avoids it)
+      | _ => .wrong
 
 /-- Entry table of a well-formed archive without comment, ZIP64 or prepended data. -/
-def parseArch (b : Bytes) (data : List Bytes) : Option Arch := do
+def parseArch (b : Bytes) (data : List Bytes) (keys : List (Nat × Bytes × Bytes)) : Option Arch := do
   if b.length < 22 then none
   let eo := b.length - 22
   let sig ← u32At b eo
@@ -57,12 +138,17 @@ def parseArch (b : Bytes) (data : List Bytes) : Option Arch := do
   if cdOff + cdSize != eo then none
   let (es, o') ← centralEntries b data cnt cdOff 0
   if o' != eo then none
-  some { bytes := b, entries := es }
+  some { bytes := b, entries := es.map (·.1), unlock := unlockOf b es keys }
+
+def pwArg (s : String) : Option Bytes := parseHex s
 
 def parseCall (s : String) : Option (Nat × Op) :=
   match s.splitOn ":" with
   | [h, "open", i] => do some (← h.toNat?, .openIdx (← i.toNat?))
   | [h, "openraw", i] => do some (← h.toNat?, .openRaw (← i.toNat?))
+  | [h, "opendec", i, p] => do some (← h.toNat?, .openDec (← i.toNat?) (← parseHex p))
+  | [h, "byname", nm] => do some (← h.toNat?, .openName (← parseHex nm))
+  | [h, "bynamedec", nm, p] => do some (← h.toNat?, .openNameDec (← parseHex nm) (← parseHex p))
   | [h, "read", n] => do some (← h.toNat?, .read (← n.toNat?))
   | [h, "ds"] => do some (← h.toNat?, .dataStart)
   | [h, "name"] => do some (← h.toNat?, .info)
@@ -74,6 +160,8 @@ def showObs : Obs → String
   | .opened => "ok"
   | .openErr e => Out.className e
   | .openPanic => "panic"
+  | .invalidPassword => "invalidpw"
+  | .readErr k => Out.className (.io k)
   | .bytes b => s!"b:{toHex b}"
   | .dataStart v => s!"ds:{v.toNat}"
   | .info n sz crc hs => s!"name:{toHex n},size:{sz.toNat},crc:{crc.toNat},hs:{hs.toNat}"
@@ -104,7 +192,8 @@ def opClones (op : String) (a : Args) : Option String := do
     let data ← (if dataS == "" then some [] else (dataS.splitOn ",").mapM parseHex)
     let scriptS ← a.get? "script"
     let calls ← (if scriptS == "-" || scriptS == "" then some [] else (scriptS.splitOn ",").mapM Clones.parseCall)
-    match Clones.parseArch zip data with
+    let keys ← Clones.parseKeys ((a.get? "keys").getD "-")
+    match Clones.parseArch zip data keys with
     | none => some "bad-archive"
     | some A =>
       if calls.any (fun c => c.1 ≥ k) then none else
